@@ -106,6 +106,7 @@ func initProperties() {
 			Decides: "option plumbing into the native FSM (FLAGSYNC: every conv.Option that affects j2t reaches its own flag bit, flags recomputed after every options write), the native status is tested and handled (NATIVERET), and for the portable converter (config P): every JSON-kind case of doRecurse ends in a return (CASEEXIT), the portable code reads the same options the flag table maps (OPTAGREE), no error dropped (DROPERR), thrift type switch exhaustive (KINDEXH).",
 			NotDec:  "everything inside the native FSM (opaque machine code): number/escape handling, resumption after ERR_OOM_*, buffer-capacity independence; value equality of the output.",
 			Uses: uses(
+				use("KEYMAPNONEMPTY", "a member is found under its declared key", nil),
 				use("PARSEWIDTH", "text integers are parsed at the width of their target", nil),
 				use("CTWINLIT", "the Go-built key trie / hash map is probed by the native code with the same constants", nil),
 				use("PARSEBASE", "text integers (map keys, quoted numbers) are decimal", nil),
@@ -136,6 +137,7 @@ func initProperties() {
 			Decides: "balanced `{}`/`[]` on every success path of the t2j walkers (JSONPAIR — a necessary condition of `never malformed JSON with a nil error`), member keys come from one FieldDescriptor accessor everywhere (KEYSRC), thrift type switches are exhaustive (KINDEXH), unknown fields are an error exactly when disallowed and are otherwise skipped (NEGPOLARITY, UNKNOWNSKIP), no error dropped (DROPERR), loops consume (LOOPPROGRESS).",
 			NotDec:  "comma placement, numeric and string exactness (value-level).",
 			Uses: uses(
+				use("KEYMAPNONEMPTY", "members are written under their declared keys, never under the empty string", nil),
 				use("FIELDLISTFIRST", "a response carrying the second declared exception is not converted to {}", nil),
 				use("LASTBYTEPATCH", "no container is closed by overwriting the last byte unconditionally", nil),
 				use("FIELDLOOPEXIT", "a struct is converted to its STOP byte: no field loop is left early", nil),
@@ -498,6 +500,7 @@ func initProperties() {
 			Decides: "every name map that is filled is built (BUILDPAIR: without Build every key lookup returns nil), trie/hash Set and Get derive slots through the same helper (SEQAGREE), descriptors are not written after parsing (DESCIMMUT).",
 			NotDec:  "fidelity to the IDL, default values, requiredness under options, the native trie_get/hm_get twins, adversarial keys.",
 			Uses: uses(
+				use("KEYMAPNONEMPTY", "an annotation with an empty value does not rename the field to the empty string", nil),
 				use("FIELDLISTFIRST", "every declared exception is a field of the response descriptor", nil),
 				use("PROBEMOD", "Get and Set of the name hash map probe with the same modulus", nil),
 				use("INPLACEFILTER", "selecting methods does not overwrite the list still being searched", nil),
